@@ -18,6 +18,7 @@ import (
 //   - a terminal Mesos status (failed, lost, killed, error) of a task owned by an environment puts the task in
 //     ERROR (its role is told), of an unowned one changes nothing; finished means DONE;
 //   - loss of the executor or of the agent puts every task of that executor/agent in ERROR and INACTIVE.
+//
 //verif:entry HarnessTaskFailureKinds unwind=24 preempt=1 reach=status,executor,agent stub=github.com/AliceO2Group/Control/common/utils.TimeTrack
 func HarnessTaskFailureKinds() {
 	env := uid.ID("2oDvieFrVTi")
@@ -51,7 +52,12 @@ func HarnessTaskFailureKinds() {
 	case 0:
 		states := []mesos.TaskState{mesos.TASK_FAILED, mesos.TASK_LOST, mesos.TASK_KILLED, mesos.TASK_ERROR, mesos.TASK_FINISHED, mesos.TASK_RUNNING, mesos.TASK_STARTING}
 		st := states[vrt.IntRange("mesos.state", 0, len(states)-1)]
-		w.m.handleMessage(NewTaskStatusMessage(mesos.TaskStatus{TaskID: mesos.TaskID{Value: victim.taskId}, State: &st}))
+		status := mesos.TaskStatus{TaskID: mesos.TaskID{Value: victim.taskId}, State: &st}
+		if vrt.Bool("learnt.through.reconciliation") { // the master's answer to a reconciliation after a reconnection
+			r := mesos.REASON_RECONCILIATION
+			status.Reason = &r
+		}
+		w.m.handleMessage(NewTaskStatusMessage(status))
 		vrt.WaitQuiescent(50 * time.Millisecond)
 		last, told := vrole.lastState()
 		switch st {
